@@ -1,0 +1,68 @@
+//go:build verif
+
+package node
+
+import (
+	hg "github.com/mosaicnetworks/babble/src/hashgraph"
+	"github.com/mosaicnetworks/babble/src/net"
+	"github.com/mosaicnetworks/babble/src/peers"
+	"github.com/mosaicnetworks/babble/src/proxy"
+	"github.com/sirupsen/logrus"
+)
+
+// VerifCore wraps the unexported core for the verification harness (build tag
+// verif). It only forwards to existing methods and exposes existing fields.
+type VerifCore struct{ c *core }
+
+// NewVerifCore builds a core exactly like NewNode does.
+func NewVerifCore(v *Validator, ps, genesis *peers.PeerSet, store hg.Store,
+	cb proxy.CommitCallback, maintenance bool, logger *logrus.Entry) *VerifCore {
+	return &VerifCore{c: newCore(v, ps, genesis, store, cb, maintenance, logger)}
+}
+
+func (v *VerifCore) Hashgraph() *hg.Hashgraph    { return v.c.hg }
+func (v *VerifCore) ID() uint32                  { return v.c.validator.ID() }
+func (v *VerifCore) Head() string                { return v.c.head }
+func (v *VerifCore) Seq() int                    { return v.c.seq }
+func (v *VerifCore) Busy() bool                  { return v.c.busy() }
+func (v *VerifCore) KnownEvents() map[uint32]int { return v.c.knownEvents() }
+func (v *VerifCore) Validators() *peers.PeerSet  { return v.c.validators }
+func (v *VerifCore) Peers() *peers.PeerSet       { return v.c.peers }
+func (v *VerifCore) TransactionPool() [][]byte   { return v.c.transactionPool }
+func (v *VerifCore) InternalTransactionPool() []hg.InternalTransaction {
+	return v.c.internalTransactionPool
+}
+func (v *VerifCore) SelfBlockSignatures() []hg.BlockSignature { return v.c.selfBlockSignatures.Slice() }
+func (v *VerifCore) AcceptedRound() int                       { return v.c.acceptedRound }
+func (v *VerifCore) SetAcceptedRound(r int)                   { v.c.acceptedRound = r }
+func (v *VerifCore) RemovedRound() int                        { return v.c.removedRound }
+func (v *VerifCore) TargetRound() int                         { return v.c.targetRound }
+func (v *VerifCore) SetHeadAndSeq() error                     { return v.c.setHeadAndSeq() }
+func (v *VerifCore) Bootstrap() error                         { return v.c.bootstrap() }
+func (v *VerifCore) EventDiff(known map[uint32]int) ([]*hg.Event, error) {
+	return v.c.eventDiff(known)
+}
+func (v *VerifCore) ToWire(evs []*hg.Event) ([]hg.WireEvent, error) { return v.c.toWire(evs) }
+func (v *VerifCore) Sync(from uint32, evs []hg.WireEvent) error     { return v.c.sync(from, evs) }
+func (v *VerifCore) AddSelfEvent(otherHead string) error            { return v.c.addSelfEvent(otherHead) }
+func (v *VerifCore) ProcessSigPool() error                          { return v.c.processSigPool() }
+func (v *VerifCore) AddTransactions(txs [][]byte)                   { v.c.addTransactions(txs) }
+func (v *VerifCore) AddInternalTransaction(tx hg.InternalTransaction) {
+	v.c.addInternalTransaction(tx)
+}
+func (v *VerifCore) FastForward(b *hg.Block, f *hg.Frame) error { return v.c.fastForward(b, f) }
+func (v *VerifCore) GetAnchorBlockWithFrame() (*hg.Block, *hg.Frame, error) {
+	return v.c.getAnchorBlockWithFrame()
+}
+func (v *VerifCore) ProcessAcceptedInternalTransactions(rr int, receipts []hg.InternalTransactionReceipt) error {
+	return v.c.processAcceptedInternalTransactions(rr, receipts)
+}
+
+// VerifProcessRPC runs the RPC dispatcher synchronously.
+func (n *Node) VerifProcessRPC(rpc net.RPC) { n.processRPC(rpc) }
+
+// VerifCheckSuspend runs the suspension check.
+func (n *Node) VerifCheckSuspend() { n.checkSuspend() }
+
+// VerifCore exposes the node's core.
+func (n *Node) VerifCore() *VerifCore { return &VerifCore{c: n.core} }
